@@ -233,3 +233,212 @@ Proof.
   destruct (Z.leb_spec 0 y), (Z.ltb_spec y H), (Z.leb_spec 0 x), (Z.ltb_spec x W); cbn [andb]; try reflexivity.
   apply HE; lia.
 Qed.
+
+(* ------------------------------------------------------------------ a rectangular list is its own entry function *)
+Lemma rectb_Rect {B} H W (a : list (list B)) : rectb H W a = true -> 0 <= W -> Rect (Z.to_nat H) (Z.to_nat W) a.
+Proof.
+  unfold rectb. intros HB HW. apply andb_prop in HB. destruct HB as [HL HF]. apply Z.eqb_eq in HL.
+  split; [lia|]. intros i Hi. rewrite forallb_forall in HF.
+  assert (HI : In (nth i a []) a) by (apply nth_In; lia). apply HF in HI. apply Z.eqb_eq in HI. lia.
+Qed.
+Lemma rectb_W_nonneg {B} H W (a : list (list B)) : rectb H W a = true -> 0 < H -> 0 <= W.
+Proof.
+  unfold rectb. intros HB HP. apply andb_prop in HB. destruct HB as [HL HF]. apply Z.eqb_eq in HL.
+  destruct a as [|r t]; [cbn in HL; lia|]. cbn in HF. apply andb_prop in HF. destruct HF as [HF _]. apply Z.eqb_eq in HF. lia.
+Qed.
+Lemma Entries_self {B} (zero : B) H W (a : list (list B)) :
+  rectb H W a = true -> 0 < H -> Entries a H W (zget2 zero a).
+Proof.
+  intros HB HP. pose proof (rectb_W_nonneg _ _ _ HB HP) as HW. pose proof (rectb_Rect _ _ _ HB HW) as HR.
+  split; [lia|]. split; [lia|]. split; [exact HR|].
+  intros i j d Hi Hj. unfold zget2, get2. apply nth_indep. destruct HR as [_ HC]. rewrite HC; lia.
+Qed.
+Lemma Rect_rectb {B} H W (a : list (list B)) : 0 <= H -> 0 <= W -> Rect (Z.to_nat H) (Z.to_nat W) a -> rectb H W a = true.
+Proof.
+  intros H0 W0 [HL HC]. unfold rectb. apply andb_true_intro. split; [apply Z.eqb_eq; lia|].
+  apply forallb_forall. intros r Hr. destruct (In_nth _ _ [] Hr) as (i & Hi & <-). apply Z.eqb_eq. rewrite HC; lia.
+Qed.
+
+(* ------------------------------------------------------------------ the specification: crop / embed per axis *)
+Lemma resize1_length {B} (pad : B) l r : 0 <= r -> length (resize1 pad l r) = Z.to_nat r.
+Proof.
+  intros Hr. unfold resize1. set (n := Z.of_nat (length l)). assert (Hn : 0 <= n) by lia.
+  destruct (Z.leb_spec r n).
+  - rewrite firstn_length, skipn_length. assert (n / 2 - r / 2 + r <= n) by zdiv. assert (0 <= n / 2 - r / 2) by zdiv. lia.
+  - rewrite !app_length, !repeat_length. assert (0 <= r / 2 - n / 2) by zdiv. assert (0 <= r - n - (r / 2 - n / 2)) by zdiv. lia.
+Qed.
+Lemma resize1_nth {B} (pad : B) l r i d : 0 <= r -> 0 <= i < r ->
+  nth (Z.to_nat i) (resize1 pad l r) d =
+  let n := Z.of_nat (length l) in let s := i + (n / 2 - r / 2) in
+  if inr s n then nth (Z.to_nat s) l d else pad.
+Proof.
+  intros Hr Hi. unfold resize1. cbv zeta. set (n := Z.of_nat (length l)). assert (Hn : 0 <= n) by lia.
+  unfold inr. destruct (Z.leb_spec r n).
+  - assert (n / 2 - r / 2 + r <= n) by zdiv. assert (0 <= n / 2 - r / 2) by zdiv.
+    rewrite nth_firstn_lt by lia. rewrite nth_skipn_add.
+    destruct (Z.leb_spec 0 (i + (n / 2 - r / 2))); [|lia]. destruct (Z.ltb_spec (i + (n / 2 - r / 2)) n); [|lia].
+    cbn [andb]. f_equal. lia.
+  - assert (0 <= r / 2 - n / 2) by zdiv. assert (0 <= r - n - (r / 2 - n / 2)) by zdiv.
+    destruct (Z.leb_spec 0 (i + (n / 2 - r / 2))); cbn [andb].
+    + rewrite app_nth2 by (rewrite repeat_length; lia). rewrite repeat_length.
+      destruct (Z.ltb_spec (i + (n / 2 - r / 2)) n).
+      * rewrite app_nth1 by lia. f_equal. lia.
+      * rewrite app_nth2 by lia. apply nth_repeat_lt. lia.
+    + rewrite app_nth1 by (rewrite repeat_length; lia). apply nth_repeat_lt. lia.
+Qed.
+
+Lemma resize_spec_entries {B} (pad : B) (a : list (list B)) H W f r0 r1 :
+  Entries a H W f -> 0 <= r0 -> 0 <= r1 -> Entries (resize_spec pad a r0 r1) r0 r1 (resized_fun H W r0 r1 pad f).
+Proof.
+  intros (HH & HW & [HL HC] & HE) Hr0 Hr1. unfold resize_spec.
+  assert (ROW : forall i, 0 <= i < r0 ->
+     nth (Z.to_nat i) (resize1 (repeat pad (Z.to_nat r1)) (map (fun row => resize1 pad row r1) a) r0) [] =
+     if inr (i + (H / 2 - r0 / 2)) H then resize1 pad (nth (Z.to_nat (i + (H / 2 - r0 / 2))) a []) r1 else repeat pad (Z.to_nat r1)).
+  { intros i Hi. rewrite resize1_nth by lia. cbv zeta. rewrite map_length. replace (Z.of_nat (length a)) with H by lia.
+    destruct (inr (i + (H / 2 - r0 / 2)) H) eqn:E; [|reflexivity].
+    unfold inr in E. boolp.
+    rewrite (nth_indep _ [] (resize1 pad [] r1)) by (rewrite map_length; lia).
+    apply (map_nth (fun row => resize1 pad row r1)). }
+  split; [lia|]. split; [lia|]. split.
+  - split; [rewrite resize1_length by lia; reflexivity|].
+    intros i Hi. rewrite <- (Nat2Z.id i). rewrite ROW by lia.
+    destruct (inr _ H); [apply resize1_length; lia | apply repeat_length].
+  - intros i j d Hi Hj. unfold zget2, get2. rewrite ROW by lia. unfold resized_fun.
+    destruct (inr (i + (H / 2 - r0 / 2)) H) eqn:E; cbn [andb].
+    + unfold inr in E. boolp. rewrite resize1_nth by lia. cbv zeta.
+      rewrite HC by lia. rewrite Z2Nat.id by lia.
+      destruct (inr (j + (W / 2 - r1 / 2)) W) eqn:E2; [|reflexivity].
+      unfold inr in E2. boolp. apply (HE _ _ d); lia.
+    + apply nth_repeat_lt. lia.
+Qed.
+
+(* MAIN 1: for every rectangular input, every target shape and every pad value the code returns the centred crop /
+   centred embedding (per axis) *)
+Lemma resized_is_spec {B} (zero pad : B) (a : list (list B)) H W r0 r1 :
+  rectb H W a = true -> 0 < H -> 0 <= r0 -> 0 <= r1 ->
+  resized_array_2d_from zero a (r0, r1) (-1, -1) pad = Ok (resize_spec pad a r0 r1).
+Proof.
+  intros HB HP Hr0 Hr1. pose proof (Entries_self zero _ _ _ HB HP) as HE.
+  destruct (resized_entries zero pad a H W _ r0 r1 HE HP Hr0 Hr1) as (m' & -> & HM). f_equal.
+  apply (Entries_ext pad _ _ _ _ _ _ HM (resize_spec_entries pad a H W _ r0 r1 HE Hr0 Hr1)). reflexivity.
+Qed.
+Lemma resized_negative_shape {B} (zero pad : B) (a : list (list B)) r0 r1 origin :
+  r0 < 0 \/ r1 < 0 -> resized_array_2d_from zero a (r0, r1) origin pad = Raise OtherException.
+Proof.
+  intros Hr. unfold resized_array_2d_from. cbn [fst snd].
+  assert (E0 : (r0 <? 0) || (r1 <? 0) = true) by (apply orb_true_iff; destruct Hr; [left|right]; apply Z.ltb_lt; lia).
+  rewrite E0. reflexivity.
+Qed.
+
+(* the crop / the embedding is centred: the two margins differ by at most one, and are equal when the parity is kept *)
+Lemma margins_centred n r : 0 <= r -> 0 <= n ->
+  let top := Z.abs (n / 2 - r / 2) in let bottom := Z.abs (n - r) - top in
+  0 <= top /\ 0 <= bottom /\ top + Z.min n r + bottom = Z.max n r /\ Z.abs (top - bottom) <= 1 /\
+  (Z.even (n - r) = true -> top = bottom).
+Proof.
+  intros Hr Hn. cbv zeta. repeat split; try zdiv.
+  intros HE. apply Z.even_spec in HE. destruct HE as [k Hk]. zdiv.
+Qed.
+
+(* ------------------------------------------------------------------ mask_apply, zip_mask, python slices *)
+Lemma get2_tab2 {B} H W (F : nat -> nat -> B) i j d : (i < H)%nat -> (j < W)%nat -> get2 d (tab2 H W F) i j = F i j.
+Proof.
+  intros Hi Hj. unfold get2, tab2.
+  rewrite (nth_indep _ [] (map (fun x => F 0%nat x) (seq 0 W))) by (rewrite map_length, seq_length; lia).
+  rewrite (map_nth (fun y => map (fun x => F y x) (seq 0 W)) (seq 0 H) 0%nat i). rewrite seq_nth by lia. cbn [plus].
+  rewrite (nth_indep _ d (F i 0%nat)) by (rewrite map_length, seq_length; lia).
+  rewrite (map_nth (fun x => F i x) (seq 0 W) 0%nat j). rewrite seq_nth by lia. reflexivity.
+Qed.
+Lemma Rect_tab2 {B} H W (F : nat -> nat -> B) : Rect H W (tab2 H W F).
+Proof.
+  unfold tab2. split; [now rewrite map_length, seq_length|]. intros i Hi.
+  rewrite (nth_indep _ [] (map (fun x => F 0%nat x) (seq 0 W))) by (rewrite map_length, seq_length; lia).
+  rewrite (map_nth (fun y => map (fun x => F y x) (seq 0 W)) (seq 0 H) 0%nat i). now rewrite map_length, seq_length.
+Qed.
+Lemma Rect_shape_eqb {B C} n0 n1 (a : list (list B)) (m : list (list C)) : Rect n0 n1 a -> Rect n0 n1 m -> shape_eqb a m = true.
+Proof.
+  intros [L1 C1] [L2 C2]. unfold shape_eqb, nrows, ncols. apply andb_true_intro. split; apply Z.eqb_eq; [lia|].
+  destruct n0 as [|n0].
+  - destruct a; [|discriminate]. destruct m; [|discriminate]. reflexivity.
+  - rewrite !hd_nth0, C1, C2 by lia. reflexivity.
+Qed.
+
+Definition masked_fun {B} (zero : B) (g : Z -> Z -> bool) (f : Z -> Z -> B) : Z -> Z -> B :=
+  fun i j => if g i j then zero else f i j.
+
+Lemma mask_apply_entries {B} (zero : B) a m R0 R1 f g :
+  Entries a R0 R1 f -> Entries m R0 R1 g ->
+  exists x, mask_apply zero a m = Ok x /\ Entries x R0 R1 (masked_fun zero g f).
+Proof.
+  intros (H0 & H1 & HR & HE) (_ & _ & HR' & HE'). unfold mask_apply. rewrite (Rect_shape_eqb _ _ _ _ HR HR').
+  eexists. split; [reflexivity|]. destruct HR as [HL HC].
+  split; [lia|]. split; [lia|]. split.
+  - rewrite HL. split; [apply Rect_tab2|]. intros i Hi. rewrite hd_nth0, HC by lia. apply Rect_tab2. assumption.
+  - intros i j d Hi Hj. unfold zget2. rewrite get2_tab2 by (rewrite ?hd_nth0, ?HC, ?HL; lia).
+    specialize (HE i j zero Hi Hj). specialize (HE' i j true Hi Hj). unfold zget2 in HE, HE'. rewrite HE, HE'. reflexivity.
+Qed.
+
+Lemma zip_mask_entries {B} (zero : B) a m R0 R1 f g :
+  Entries a R0 R1 f -> Entries m R0 R1 g -> Entries (zip_mask zero a m) R0 R1 (masked_fun zero g f).
+Proof.
+  intros (H0 & H1 & [HL HC] & HE) (_ & _ & [HL' HC'] & HE'). unfold zip_mask.
+  set (F := fun rm : list B * list bool => map (fun vb : B * bool => if snd vb then zero else fst vb) (combine (fst rm) (snd rm))).
+  assert (ROW : forall i, (i < Z.to_nat R0)%nat -> nth i (map F (combine a m)) [] = F (nth i a [], nth i m [])).
+  { intros i Hi. rewrite (nth_indep _ [] (F ([], []))) by (rewrite map_length, combine_length; lia).
+    rewrite (map_nth F). rewrite nth_combine by lia. reflexivity. }
+  split; [lia|]. split; [lia|]. split.
+  - split; [rewrite map_length, combine_length; lia|]. intros i Hi. rewrite ROW by assumption.
+    unfold F. cbn [fst snd]. rewrite map_length, combine_length, HC, HC' by assumption. lia.
+  - intros i j d Hi Hj. unfold zget2, get2. rewrite ROW by lia. unfold F. cbn [fst snd].
+    set (G := fun vb : B * bool => if snd vb then zero else fst vb).
+    rewrite (nth_indep _ d (G (zero, true))) by (rewrite map_length, combine_length, HC, HC'; lia).
+    rewrite (map_nth G). rewrite nth_combine by (rewrite ?HC, ?HC'; lia). unfold G. cbn [fst snd].
+    specialize (HE i j zero Hi Hj). specialize (HE' i j true Hi Hj). unfold zget2, get2 in HE, HE'. rewrite HE, HE'. reflexivity.
+Qed.
+
+Lemma py_norm_id n i : 0 <= i <= n -> py_norm n i = i.
+Proof. intros. unfold py_norm. destruct (Z.ltb_spec i 0); lia. Qed.
+Lemma pyslice_length {B} (l : list B) lo hi : 0 <= lo <= hi -> hi <= Z.of_nat (length l) -> length (pyslice l lo hi) = Z.to_nat (hi - lo).
+Proof. intros. unfold pyslice. rewrite !py_norm_id by lia. rewrite firstn_length, skipn_length. lia. Qed.
+Lemma pyslice_nth {B} (l : list B) lo hi i d : 0 <= lo <= hi -> hi <= Z.of_nat (length l) -> 0 <= i < hi - lo ->
+  nth (Z.to_nat i) (pyslice l lo hi) d = nth (Z.to_nat (i + lo)) l d.
+Proof.
+  intros. unfold pyslice. rewrite !py_norm_id by lia. rewrite nth_firstn_lt by lia. rewrite nth_skipn_add. f_equal. lia.
+Qed.
+Lemma pyslice2_entries {B} (a : list (list B)) R0 R1 f y0 y1 x0 x1 :
+  Entries a R0 R1 f -> 0 <= y0 <= y1 -> y1 <= R0 -> 0 <= x0 <= x1 -> x1 <= R1 ->
+  Entries (pyslice2 a y0 y1 x0 x1) (y1 - y0) (x1 - x0) (fun i j => f (i + y0) (j + x0)).
+Proof.
+  intros (H0 & H1 & [HL HC] & HE) Hy Hy1 Hx Hx1. unfold pyslice2.
+  assert (ROW : forall i, 0 <= i < y1 - y0 ->
+     nth (Z.to_nat i) (map (fun row => pyslice row x0 x1) (pyslice a y0 y1)) [] = pyslice (nth (Z.to_nat (i + y0)) a []) x0 x1).
+  { intros i Hi. rewrite (nth_indep _ [] (pyslice [] x0 x1)) by (rewrite map_length, pyslice_length; lia).
+    rewrite (map_nth (fun row => pyslice row x0 x1)). rewrite pyslice_nth by lia. reflexivity. }
+  split; [lia|]. split; [lia|]. split.
+  - split; [rewrite map_length, pyslice_length; lia|]. intros i Hi. rewrite <- (Nat2Z.id i). rewrite ROW by lia.
+    rewrite pyslice_length; rewrite ?HC; lia.
+  - intros i j d Hi Hj. unfold zget2, get2. rewrite ROW by lia. rewrite pyslice_nth by (rewrite ?HC; lia).
+    apply (HE (i + y0) (j + x0) d); lia.
+Qed.
+
+(* ------------------------------------------------------------------ arithmetic of the two directions of a resize *)
+Lemma resized_fun_shrink {B} (pad : B) F H W r0 r1 i j :
+  0 <= H <= r0 -> 0 <= W <= r1 -> 0 <= i < H -> 0 <= j < W ->
+  resized_fun r0 r1 H W pad F i j = F (i + (r0 / 2 - H / 2)) (j + (r1 / 2 - W / 2)).
+Proof.
+  intros HH HW Hi Hj. unfold resized_fun, inr.
+  assert (0 <= i + (r0 / 2 - H / 2) < r0) by zdiv. assert (0 <= j + (r1 / 2 - W / 2) < r1) by zdiv.
+  destruct (Z.leb_spec 0 (i + (r0 / 2 - H / 2))); [|lia]. destruct (Z.ltb_spec (i + (r0 / 2 - H / 2)) r0); [|lia].
+  destruct (Z.leb_spec 0 (j + (r1 / 2 - W / 2))); [|lia]. destruct (Z.ltb_spec (j + (r1 / 2 - W / 2)) r1); [|lia].
+  reflexivity.
+Qed.
+Lemma resized_fun_at_shift {B} (pad : B) f H W r0 r1 i j :
+  0 <= i < H -> 0 <= j < W ->
+  resized_fun H W r0 r1 pad f (i + (r0 / 2 - H / 2)) (j + (r1 / 2 - W / 2)) = f i j.
+Proof.
+  intros Hi Hj. unfold resized_fun, inr.
+  replace (i + (r0 / 2 - H / 2) + (H / 2 - r0 / 2)) with i by lia.
+  replace (j + (r1 / 2 - W / 2) + (W / 2 - r1 / 2)) with j by lia.
+  destruct (Z.leb_spec 0 i); [|lia]. destruct (Z.ltb_spec i H); [|lia].
+  destruct (Z.leb_spec 0 j); [|lia]. destruct (Z.ltb_spec j W); [|lia]. reflexivity.
+Qed.
